@@ -61,6 +61,23 @@ Theorem C09_literal_opaque : forall pre body post st,
            (mkScan false (sc_next_lit st + 1) (body :: sc_lits st)).
 Proof. exact scan_line_one_literal. Qed.
 
+(** a literal that follows a block comment on its line is extracted like any other (repaired
+    defect: the line used to be cut at the // of the literal and rejected as unterminated) *)
+Theorem C09_literal_after_block_comment :
+  scan_line false ("/* c */ s = ""http://x"";" ++ nl) (mkScan false 0 [])
+  = ScanOk (" s = @0@;" ++ nl) true (mkScan false 1 ["http://x"]).
+Proof. vm_compute. reflexivity. Qed.
+
+Theorem C09_literal_after_block_comment_general : forall pre cbody mid body post st f out ins,
+  sc_in_comment st = false -> no_markers pre ->
+  forall no_trailing_slash : ends_with "/" pre = false,
+  contains "*/" cbody = false ->
+  no_markers mid -> scannable body ->
+  scan_loop (S (S (S f))) false (pre ++ "/*" ++ cbody ++ "*/" ++ mid ++ """" ++ body ++ """" ++ post) out ins st
+  = scan_loop f false post ((out ++ pre) ++ mid ++ "@" ++ string_of_N (sc_next_lit st) ++ "@") true
+              (mkScan false (sc_next_lit st + 1) (body :: sc_lits st)).
+Proof. exact literal_after_block_comment. Qed.
+
 (** the limitation: a body containing backslash backslash quote is never returned whole (it is
     rejected or mis-split: a rejection / known limitation, see DESIGN.md) *)
 Theorem C09_find_close_inexact : forall body rest fuel,
